@@ -64,7 +64,9 @@ func genClosures(r *rand.Rand, id string, tier string) string {
 			}
 		case 7:
 			if recv.T == 'K' {
-				ops = append(ops, "marshal "+[]string{"A [ s414e44 i1 ]", "A [ s6a756e6b ]", "A [ ]", "A [ s434f4e444954494f4e s6b Oc1 i1 ]"}[r.Intn(4)])
+				ops = append(ops, "marshal "+[]string{"A [ s414e44 i1 ]", "A [ s6a756e6b ]", "A [ ]", "A [ s434f4e444954494f4e s6b Oc1 i1 ]",
+					// envelopes: one argument that is itself a row, an empty row, an empty row inside an envelope
+					"A [ A [ ] ]", "A [ A [ A [ ] ] ]", "A [ A [ s414e44 i1 ] ]", "A [ A [ ] A [ ] ]", "A [ N ]"}[r.Intn(9)])
 			} else {
 				ops = append(ops, "clrerr")
 			}
